@@ -3154,3 +3154,78 @@ Proof.
     - exact C10Witness.hdr_must_be_remade. }
   congruence.
 Qed.
+
+(* ---- concrete instances of the C03 statements (non-vacuity) *)
+(*   build o: r s || t          (o = 0, s = 1, t = 2); only t's mtime differs between w and w' *)
+Module OrderOnlyExample.
+  Definition e0 := mkEdge [1; 2] 0 1 [0] [] false false false DepsNone 7%N.
+  Definition dummy := mkEdge [] 0 0 [] [] false false false DepsNone 0%N.
+  Definition g := mkGraph 1 (fun e => match e with 0 => e0 | _ => dummy end)
+                          (fun n => match n with 0 => Some 0 | _ => None end) (fun _ => false).
+  Definition mk (t : Z) := mkWorld (fun n => match n with 0 => 10%Z | 1 => 5%Z | 2 => t | _ => 0%Z end)
+                                   (fun n => match n with 0 => Some (7%N, 10%Z) | _ => None end)
+                                   (fun _ => None) (fun _ => DfMissing).
+  Definition w := mk 6%Z.
+  Definition w' := mk 50%Z.
+  Definition X (n : node) : Prop := n = 2.
+
+  Lemma wf : wf_spec g.
+  Proof.
+    split; [|split].
+    - intros e o Ho. destruct e as [|e]; cbn in Ho; [destruct Ho as [<-|[]]; reflexivity|destruct Ho].
+    - intros n e Hp. destruct n as [|n]; cbn in Hp; inversion Hp; subst; cbn; left; reflexivity.
+    - intros e He. destruct e as [|e]; cbn in *; congruence.
+  Qed.
+  Lemma agree : worlds_agree_except X w w'.
+  Proof.
+    split; [|split; [|split]]; try reflexivity.
+    intros n Hn. unfold X in Hn. destruct n as [|[|[|n]]]; try reflexivity. congruence.
+  Qed.
+  Lemma oos t : t <> 0%Z -> order_only_sources g (mk t) X.
+  Proof.
+    intros Ht x Hx. unfold X in Hx. subst x. split; [reflexivity|]. split; [exact Ht|].
+    intros e Hin. destruct e as [|e]; cbn in Hin; [destruct Hin as [H|[]]; discriminate|destruct Hin].
+  Qed.
+  Lemma scans :
+    match scan g w [0], scan g w' [0] with
+    | ScanOk s p, ScanOk s' p' =>
+      n_known (st_node s 0) = true /\ n_known (st_node s' 0) = true /\
+      ns_dirty (st_node s 0) = false /\ ns_dirty (st_node s' 0) = false /\
+      ns_mtime (st_node s 2) = 6%Z /\ ns_mtime (st_node s' 2) = 50%Z
+    | _, _ => False
+    end.
+  Proof. vm_compute. repeat split; reflexivity. Qed.
+End OrderOnlyExample.
+
+(*   build gen: r s   (generator = 1)      (gen = 0, s = 1); only the command hash differs *)
+Module GeneratorExample.
+  Definition mk (h : N) :=
+    mkGraph 1 (fun e => match e with
+                        | 0 => mkEdge [1] 0 0 [0] [] false false true DepsNone h
+                        | _ => mkEdge [] 0 0 [] [] false false false DepsNone 0%N end)
+            (fun n => match n with 0 => Some 0 | _ => None end) (fun _ => false).
+  Definition g := mk 7%N.
+  Definition g' := mk 99%N.
+  Definition w := mkWorld (fun n => match n with 0 => 10%Z | 1 => 5%Z | _ => 0%Z end)
+                          (fun n => match n with 0 => Some (7%N, 10%Z) | _ => None end)
+                          (fun _ => None) (fun _ => DfMissing).
+  Lemma wf h : wf_spec (mk h).
+  Proof.
+    split; [|split].
+    - intros e o Ho. destruct e as [|e]; cbn in Ho; [destruct Ho as [<-|[]]; reflexivity|destruct Ho].
+    - intros n e Hp. destruct n as [|n]; cbn in Hp; inversion Hp; subst; cbn; left; reflexivity.
+    - intros e He. destruct e as [|e]; cbn in *; congruence.
+  Qed.
+  Lemma same : same_but_generator_hash g g'.
+  Proof.
+    split; [reflexivity|]. intros e. destruct e as [|e]; cbn; repeat split; try reflexivity; discriminate.
+  Qed.
+  Lemma scans :
+    match scan g w [0], scan g' w [0] with
+    | ScanOk s p, ScanOk s' p' =>
+      n_known (st_node s 0) = true /\ n_known (st_node s' 0) = true /\
+      ns_dirty (st_node s 0) = false /\ ns_dirty (st_node s' 0) = false
+    | _, _ => False
+    end.
+  Proof. vm_compute. repeat split; reflexivity. Qed.
+End GeneratorExample.
